@@ -79,7 +79,11 @@ def pred_uri(ops, impl):
 
 
 CLIENT_RULE = ("real Client + real Agent driven through a scripted connection, manual collector and virtual clock, one "
-               "event at a time (reader goroutine synchronised on 'next Read entered'): all histories to the depth bound "
+               "event at a time (reader goroutine synchronised on 'next Read entered'); L2 family: the first "
+               "retransmission's Connection.Write blocks on the collector goroutine while up to two other events "
+               "(response for the same / another id, garbage, another Start, scripted write failure) run, then the "
+               "Write returns with or without error (exhaustive over that alphabet x 3 configurations, and inside the "
+               "random histories); fresh client pools per case (hook VerifResetClientPools); all histories to the depth bound "
                "over {Start(2 ids differing in one bit), Indicate, response, garbage, tick at / just after the deadline, "
                "scripted write failure, Close} for 3 configurations (exhaustive), plus long random histories (<= 125 "
                "events, <= 12 ids, attempts 0..8, RTO changes); non-trivial = every case (each has a Start or a Close)")
@@ -438,10 +442,12 @@ PROPS = {
                        "the predicate only",
     },
     "C10": {
-        "modules": ["Stun.Properties.C10"],
+        "modules": ["Stun.Properties.C10", "Stun.Properties.C10L2"],
         "theorems": ["Stun.C10.handler_at_most_once", "Stun.C10.never_started_never_invoked",
                      "Stun.C10.start_error_not_registered", "Stun.C10.invoked_xor_pending",
-                     "Stun.C10.closed_no_invocation", "Stun.ClientProofs.run_spec", "Stun.ClientProofs.run_eq",
+                     "Stun.C10.closed_no_invocation", "Stun.C10L2.step2_l1", "Stun.C10L2.run2_l1", "Stun.C10L2.k1_history",
+                     "Stun.C10L2.k1_history_other_start_untouched", "Stun.C10L2.blocked_write_failure_alone",
+                     "Stun.Client.retransmit_split", "Stun.ClientProofs.run_spec", "Stun.ClientProofs.run_eq",
                      "Stun.ClientProofs.callback_spec", "Stun.ClientProofs.retransmit_spec"],
         "streams": ["client-hist"], "level": "proof", "predicate": pred_client("C10"),
         "tagsets": [["verif"], ["verif", "race"]],
@@ -460,9 +466,10 @@ PROPS = {
                 "caller's message is overwritten after every Start",
     },
     "C12": {
-        "modules": ["Stun.Properties.C12"],
+        "modules": ["Stun.Properties.C12", "Stun.Properties.C10L2"],
         "theorems": ["Stun.C12.delivery_by_id", "Stun.C12.message_is_datagram", "Stun.C12.unknown_to_fallback_only",
-                     "Stun.C12.garbage_is_noop", "Stun.C12.reader_message_is_decode"],
+                     "Stun.C12.garbage_is_noop", "Stun.C12.reader_message_is_decode",
+                     "Stun.C10L2.run2_l1", "Stun.C10L2.k1_history_other_start_untouched"],
         "streams": ["client-hist"], "level": "proof", "predicate": pred_client("C12"),
         "rule": CLIENT_RULE + "; ids differing in one bit, datagrams longer than the 1024-byte reader buffer, unknown ids "
                 "and garbage interleaved",
